@@ -10,10 +10,13 @@ bound is read at the sampled cell and direction, upper/lower walkers are built f
 Not decided: exactness of the alias table for concrete rate vectors (floats), zero-rate cells at the boundary draw 0.0.
 """
 import ast
-from typing import List, Optional
+from typing import Dict, List, Optional
 
 from ..core import AnalysisError, Loc, Report, Source, norm
 from ..pyfront import Program, body_without_docstring, param_names, self_attr
+from ..guards import atoms
+from ..normalize import canon, flat
+from ..resolve import Resolver, split_atom
 from ..selftest import Edit
 
 ID = "C18"
@@ -36,20 +39,39 @@ def analyse(src: Source) -> List[Report]:
         "(upper) and 1 (lower), clipped at 0. Not decided: exactness on concrete float vectors.")
     prog = Program(src)
     wk = prog.class_named("Walker")
-    init, build, sample = wk.methods.get("__init__"), wk.methods.get("_build_table"), wk.methods.get("sample_cell")
-    if not (init and build and sample):
+    if not all(m in wk.methods for m in ("__init__", "sample_cell")):
         raise AnalysisError("Walker methods not found")
+    # all rules read canonical forms (private helpers inlined, guards nested, locals propagated) and compare expressions after
+    # resolving single-assignment locals: no rule depends on a variable name or on how a test is written
+    init = canon(prog, wk, wk.methods["__init__"])
+    sample = canon(prog, wk, wk.methods["sample_cell"])
     items = param_names(init)[0]
+    R = Resolver(init)
     # ---- R18.1 -------------------------------------------------------------------------------------------------------
-    assigns = {self_attr(n.targets[0]): n for n in ast.walk(init) if isinstance(n, ast.Assign) and self_attr(n.targets[0])}
-    total_attr = next((a for a, n in assigns.items() if isinstance(n.value, ast.Call) and norm(n.value.func) == "sum"), None)
-    mean_attr = next((a for a, n in assigns.items() if isinstance(n.value, ast.BinOp) and isinstance(n.value.op, ast.Div)), None)
-    table_attr = next((a for a, n in assigns.items() if isinstance(n.value, ast.List)), None)
+    assigns = {}
+    for n in ast.walk(init):
+        if isinstance(n, ast.Assign) and self_attr(n.targets[0]) and self_attr(n.targets[0]) not in assigns:
+            assigns[self_attr(n.targets[0])] = n
+
+    def is_rate_sum(e: ast.AST) -> bool:
+        e = R.res(e)
+        if isinstance(e, ast.Call) and norm(e.func) in ("sum", "math.fsum", "fsum") and len(e.args) == 1 \
+                and isinstance(e.args[0], (ast.GeneratorExp, ast.ListComp)):
+            g = e.args[0]
+            return len(g.generators) == 1 and not g.generators[0].ifs and norm(g.generators[0].iter) == items \
+                and isinstance(g.elt, ast.Attribute) and g.elt.attr == "rate" and norm(g.elt.value) == norm(g.generators[0].target)
+        return False
+    total_attr = next((a for a, n in assigns.items() if is_rate_sum(n.value)), None)
+    table_attr = next((a for a, n in assigns.items() if isinstance(n.value, ast.List) and not n.value.elts), None)
+    mean_attr = None
+    for a, n in assigns.items():
+        v = R.res(n.value)
+        if isinstance(v, ast.BinOp) and isinstance(v.op, ast.Div) and norm(v.right) == f"len({items})" \
+                and (self_attr(v.left) == total_attr or is_rate_sum(v.left)):
+            mean_attr = a
     loc = Loc(W, init.lineno, "Walker.__init__")
-    ok = total_attr is not None and f".rate for" in norm(assigns[total_attr].value) and f"in {items}" in norm(assigns[total_attr].value)
-    rep.ob("R18.1-total-is-sum", ok, loc, assigns[total_attr] if total_attr else "total", "the total rate must be the sum of the item rates")
-    ok = mean_attr is not None and norm(assigns[mean_attr].value) == f"self.{total_attr} / len({items})"
-    rep.ob("R18.1-mean-is-total-over-n", ok, loc, assigns[mean_attr] if mean_attr else "mean", "the mean rate must be total / number of items")
+    rep.ob("R18.1-total-is-sum", total_attr is not None, loc, assigns[total_attr] if total_attr else "total", "the total rate must be the sum of the item rates")
+    rep.ob("R18.1-mean-is-total-over-n", mean_attr is not None, loc, assigns[mean_attr] if mean_attr else "mean", "the mean rate must be total / number of items")
     props = [m for m in wk.methods.values() if any(norm(d) == "property" for d in m.decorator_list)]
     ok = any(any(isinstance(r, ast.Return) and self_attr(r.value) == total_attr for r in ast.walk(m)) for m in props)
     rep.ob("R18.1-total-rate-property", ok, Loc(W, wk.node.lineno, "Walker.total_rate"), "total_rate returns the stored total",
@@ -58,142 +80,254 @@ def analyse(src: Source) -> List[Report]:
         return [rep]
     mean = f"self.{mean_attr}"
     # ---- R18.2 -------------------------------------------------------------------------------------------------------
-    body = body_without_docstring(build)
-    split = [n for n in body if isinstance(n, ast.For)]
-    loops = [n for n in body if isinstance(n, ast.While)]
-    locb = Loc(W, build.lineno, "Walker._build_table")
+    build = init
+    locb = Loc(W, init.lineno, "Walker.__init__ / table construction")
+    if not any(isinstance(n, ast.While) for n in ast.walk(init)):
+        cands = [canon(prog, wk, m) for m in wk.methods.values() if any(isinstance(n, ast.While) for n in ast.walk(m))]
+        if len(cands) == 1:
+            build = cands[0]
+            locb = Loc(W, build.lineno, f"Walker.{build.name}")
+    RB = Resolver(build)
+    split = [n for n in ast.walk(build) if isinstance(n, ast.For) and any(isinstance(x, ast.If) for x in n.body)
+             and any(isinstance(c, ast.Call) and isinstance(c.func, ast.Attribute) and c.func.attr == "append" for c in ast.walk(n))]
+    loops = [n for n in ast.walk(build) if isinstance(n, ast.While)]
     small = large = None
-    if len(split) == 1 and len(split[0].body) == 1 and isinstance(split[0].body[0], ast.If):
-        t = split[0].body[0]
-        v = norm(split[0].target)
-        if norm(t.test) == f"{v}.rate > {mean}":
-            large = norm(t.body[0].value.func.value) if isinstance(t.body[0], ast.Expr) else None
-            small = norm(t.orelse[0].value.func.value) if t.orelse and isinstance(t.orelse[0], ast.Expr) else None
-        elif norm(t.test) in (f"{v}.rate <= {mean}", f"not {v}.rate > {mean}"):
-            small = norm(t.body[0].value.func.value) if isinstance(t.body[0], ast.Expr) else None
-            large = norm(t.orelse[0].value.func.value) if t.orelse and isinstance(t.orelse[0], ast.Expr) else None
-    rep.ob("R18.2-split-by-mean", bool(small and large), locb, split[0].body[0].test if split and isinstance(split[0].body[0], ast.If) else "split",
+
+    def appended_list(stmts, what: str) -> Optional[str]:
+        hits = [norm(c.func.value) for st in stmts for c in ast.walk(st) if isinstance(c, ast.Call) and isinstance(c.func, ast.Attribute)
+                and c.func.attr == "append" and isinstance(c.func.value, ast.Name) and c.args and norm(c.args[0]) == what]
+        return hits[0] if len(hits) == 1 else None
+    split_test = None
+    for lp in split:
+        v = norm(lp.target)
+        for t in [x for x in lp.body if isinstance(x, ast.If)]:
+            at = atoms(t.test)
+            sp = split_atom(at[0]) if len(at) == 1 else None
+            if sp is None:
+                continue
+            l, op, r = sp
+            if (l, r) == (mean, f"{v}.rate") and op in ("<",):          # mean < rate : body = large
+                large, small, split_test = appended_list(t.body, v), appended_list(t.orelse, v), t.test
+            elif (l, r) == (f"{v}.rate", mean) and op in ("<=",):        # rate <= mean : body = small
+                small, large, split_test = appended_list(t.body, v), appended_list(t.orelse, v), t.test
+    rep.ob("R18.2-split-by-mean", bool(small and large), locb, split_test if split_test is not None else "split",
            "items must be split into those above the mean rate (large) and the others (small)")
     if not (small and large):
         return [rep]
-    pair = [l for l in loops if small in norm(l.test) and large in norm(l.test)]
+
+    def mentions(e: ast.AST, name: str) -> bool:
+        return any(isinstance(x, ast.Name) and x.id == name for x in ast.walk(e))
+    pair = [l for l in loops if mentions(l.test, small) and mentions(l.test, large)]
     flush = [l for l in loops if l not in pair]
     okp = False
     if len(pair) == 1:
-        pb = pair[0].body
-        pops = {norm(s.value.func.value): norm(s.targets[0]) for s in pb if isinstance(s, ast.Assign) and isinstance(s.value, ast.Call)
-                and isinstance(s.value.func, ast.Attribute) and s.value.func.attr == "pop" and not s.value.args}
+        pb = flat(pair[0].body)
+        pops = {norm(s_.value.func.value): norm(s_.targets[0]) for s_ in pb if isinstance(s_, ast.Assign) and isinstance(s_.value, ast.Call)
+                and isinstance(s_.value.func, ast.Attribute) and s_.value.func.attr == "pop" and not s_.value.args}
         s_it, l_it = pops.get(small), pops.get(large)
+        keep = tuple(x for x in (s_it, l_it) if x)
         moved = f"{mean} - {s_it}.rate"
-        apps = [s for s in pb if isinstance(s, ast.Expr) and isinstance(s.value, ast.Call) and norm(s.value.func) == f"self.{table_attr}.append"]
-        subs = [s for s in pb if isinstance(s, ast.AugAssign) and isinstance(s.op, ast.Sub) and norm(s.target) == f"{l_it}.rate"]
-        row_ok = len(apps) == 1 and norm(apps[0].value.args[0]) == f"({s_it}, WalkerItem({l_it}.item, {moved}))"
-        sub_ok = len(subs) == 1 and norm(subs[0].value) == moved
-        rep.ob("R18.2-row-shape", row_ok, Loc(W, pair[0].lineno, "Walker._build_table"), apps[0] if apps else "row",
+        apps = [c for st in pb for c in ast.walk(st) if isinstance(c, ast.Call) and norm(c.func) == f"self.{table_attr}.append"]
+        subs = [s_ for s_ in pb if isinstance(s_, ast.AugAssign) and isinstance(s_.op, ast.Sub) and norm(s_.target) == f"{l_it}.rate"]
+        row_ok = False
+        if len(apps) == 1 and apps[0].args:
+            row = RB.res(apps[0].args[0], keep)
+            if isinstance(row, ast.Tuple) and len(row.elts) == 2 and norm(row.elts[0]) == s_it and isinstance(row.elts[1], ast.Call) \
+                    and len(row.elts[1].args) == 2:
+                row_ok = norm(row.elts[1].args[0]) == f"{l_it}.item" and norm(row.elts[1].args[1]) == moved
+        sub_ok = len(subs) == 1 and RB.text(subs[0].value, keep) == moved
+        rep.ob("R18.2-row-shape", row_ok, Loc(W, pair[0].lineno, locb.qual), apps[0] if apps else "row",
                "a two-entry row must be (small item, (large item's cell, mean - small rate)): the small item fills its share of the "
                "row, the large one the rest")
-        rep.ob("R18.2-mass-conserved", sub_ok, Loc(W, pair[0].lineno, "Walker._build_table"), subs[0] if subs else "subtraction",
+        rep.ob("R18.2-mass-conserved", sub_ok, Loc(W, pair[0].lineno, locb.qual), subs[0] if subs else "subtraction",
                "exactly the mass put into the row (mean - small rate) must be removed from the large item")
-        refile = [s for s in pb if isinstance(s, ast.If)]
+        refile = [s_ for s_ in pb if isinstance(s_, ast.If)]
         ref_ok = False
         if len(refile) == 1:
-            t = norm(refile[0].test)
-            b, o = " ".join(norm(x) for x in refile[0].body), " ".join(norm(x) for x in refile[0].orelse)
-            ref_ok = (t == f"{l_it}.rate < {mean}" and f"{small}.append({l_it})" in b and f"{large}.append({l_it})" in o) or \
-                     (t in (f"{l_it}.rate >= {mean}", f"{l_it}.rate > {mean}") and f"{large}.append({l_it})" in b and f"{small}.append({l_it})" in o)
-        rep.ob("R18.2-refile-large", ref_ok, Loc(W, pair[0].lineno, "Walker._build_table"), refile[0].test if refile else "refile",
+            at = atoms(refile[0].test)
+            sp = split_atom(at[0]) if len(at) == 1 else None
+            b_, o_ = appended_list(refile[0].body, l_it), appended_list(refile[0].orelse, l_it)
+            if sp is not None:
+                l, op, r = sp
+                if (l, r) == (f"{l_it}.rate", mean) and op in ("<", "<="):      # rate < mean: body = small
+                    ref_ok = b_ == small and o_ == large
+                elif (l, r) == (mean, f"{l_it}.rate") and op in ("<", "<="):    # mean <= rate: body = large
+                    ref_ok = b_ == large and o_ == small
+        rep.ob("R18.2-refile-large", ref_ok, Loc(W, pair[0].lineno, locb.qual), refile[0].test if refile else "refile",
                "the reduced large item must be refiled as small or large by comparison with the mean (never dropped)")
         okp = True
     rep.ob("R18.2-pairing-loop", okp, locb, "while small and large: pair", "the pairing loop was not recognised")
     flushed = set()
     for l in flush:
-        which = small if small in norm(l.test) else large if large in norm(l.test) else None
-        apps = [s for s in l.body if isinstance(s, ast.Expr) and isinstance(s.value, ast.Call) and norm(s.value.func) == f"self.{table_attr}.append"]
-        ok = which is not None and len(apps) == 1 and norm(apps[0].value.args[0]) == f"(WalkerItem({which}.pop().item, {mean}),)"
-        rep.ob("R18.2-flush-rows", ok, Loc(W, l.lineno, "Walker._build_table"), apps[0] if apps else l.test,
+        which = small if mentions(l.test, small) else large if mentions(l.test, large) else None
+        apps = [c for st in l.body for c in ast.walk(st) if isinstance(c, ast.Call) and norm(c.func) == f"self.{table_attr}.append"]
+        ok = False
+        if which is not None and len(apps) == 1 and apps[0].args:
+            row = RB.res(apps[0].args[0])
+            ok = isinstance(row, ast.Tuple) and len(row.elts) == 1 and isinstance(row.elts[0], ast.Call) and len(row.elts[0].args) == 2 \
+                and norm(row.elts[0].args[0]) == f"{which}.pop().item" and norm(row.elts[0].args[1]) == mean
+        rep.ob("R18.2-flush-rows", ok, Loc(W, l.lineno, locb.qual), apps[0] if apps else l.test,
                "leftover items must each get a one-entry row with the mean rate")
         if ok:
             flushed.add(which)
     rep.ob("R18.2-both-flushed", flushed == {small, large}, locb, f"flushed lists {sorted(flushed)}",
            "both the small and the large list must be emptied into one-entry rows (otherwise cells are lost from the table)")
     # ---- R18.3 -------------------------------------------------------------------------------------------------------
-    sb = body_without_docstring(sample)
+    sb = flat(body_without_docstring(sample))
     locs = Loc(W, sample.lineno, "Walker.sample_cell")
+    RS = Resolver(sample)
+    rows = [s_ for s_ in ast.walk(sample) if isinstance(s_, ast.Assign) and isinstance(s_.targets[0], ast.Name)
+            and isinstance(s_.value, ast.Call) and norm(s_.value.func) == "random.choice"]
+    coins = [s_ for s_ in sb if isinstance(s_, ast.If)]
     ok = False
-    if len(sb) == 2 and isinstance(sb[0], ast.Assign) and isinstance(sb[1], ast.If):
-        row = norm(sb[0].targets[0])
-        ok_row = norm(sb[0].value) == f"random.choice(self.{table_attr})"
-        t = sb[1].test
-        coin = isinstance(t, ast.Compare) and norm(t.left) in (f"random.uniform(0.0, {mean})", f"random.uniform(0, {mean})") \
-            and isinstance(t.ops[0], (ast.LtE, ast.Lt)) and norm(t.comparators[0]) == f"{row}[0].rate"
-        rets = (norm(sb[1].body[0]) == f"return {row}[0].item") and sb[1].orelse and norm(sb[1].orelse[0]) == f"return {row}[1].item"
-        rep.ob("R18.3-uniform-row", ok_row, locs, sb[0], "the row must be chosen uniformly from the table")
-        rep.ob("R18.3-coin", bool(coin), locs, t, "the coin must compare uniform(0, mean) with the first entry's rate")
-        rep.ob("R18.3-coin-outcomes", bool(rets), locs, sb[1], "heads selects the first entry's cell, tails the second entry's")
+    if len(rows) == 1 and len(coins) == 1:
+        row = norm(rows[0].targets[0])
+        ok_row = norm(rows[0].value) == f"random.choice(self.{table_attr})"
+        t = coins[0]
+        at = atoms(RS.res(t.test, (row,)))
+        sp = split_atom(at[0]) if len(at) == 1 else None
+        uniform = (f"random.uniform(0.0, {mean})", f"random.uniform(0, {mean})")
+        heads = None       # statements executed when uniform(0, mean) <= row[0].rate
+        rest = sb[sb.index(t) + 1:]
+        if sp is not None:
+            l, op, r = sp
+            if l in uniform and r == f"{row}[0].rate" and op in ("<=", "<"):
+                heads, tails = t.body, (t.orelse or rest)
+            elif r in uniform and l == f"{row}[0].rate" and op in ("<", "<="):
+                heads, tails = (t.orelse or rest), t.body
+
+        def returned(stmts) -> Optional[str]:
+            rs = [x for st in stmts for x in ast.walk(st) if isinstance(x, ast.Return)]
+            return RS.text(rs[0].value, (row,)) if len(rs) == 1 and rs[0].value is not None else None
+        rep.ob("R18.3-uniform-row", ok_row, locs, rows[0], "the row must be chosen uniformly from the table")
+        rep.ob("R18.3-coin", heads is not None, locs, t.test, "the coin must compare uniform(0, mean) with the first entry's rate")
+        if heads is not None:
+            rets = returned(heads) == f"{row}[0].item" and returned(tails) == f"{row}[1].item"
+            rep.ob("R18.3-coin-outcomes", bool(rets), locs, t, "heads selects the first entry's cell, tails the second entry's")
         ok = True
     rep.ob("R18.3-sample-shape", ok, locs, "row = choice(table); coin", "sampling idiom not recognised")
     # ---- R18.4 cell-veto handler -----------------------------------------------------------------------------------------
     cv = prog.class_named("CellVetoEventHandler")
-    st = cv.methods.get("send_event_time")
-    ini = cv.methods.get("initialize")
+    if "send_event_time" not in cv.methods or "initialize" not in cv.methods:
+        raise AnalysisError("CellVetoEventHandler.send_event_time / initialize not found")
+    st = canon(prog, cv, cv.methods["send_event_time"], helpers=False)
+    ini = canon(prog, cv, cv.methods["initialize"], helpers=False)
     locv = Loc(CV, st.lineno, "CellVetoEventHandler.send_event_time")
-    branch = [n for n in ast.walk(st) if isinstance(n, ast.If) and any(isinstance(a, ast.Assign) and "walker" in norm(a.value) for a in n.body)]
+    RI, RT = Resolver(ini), Resolver(st)
+    # initialize: the bound table stores (upper, -lower) per far cell and direction; each walker table is built per direction from
+    # one component of it, clipped at zero
+    tup = [n for n in ast.walk(ini) if isinstance(n, ast.Call) and isinstance(n.func, ast.Attribute) and n.func.attr == "append"
+           and isinstance(n.func.value, ast.Subscript) and self_attr(n.func.value.value) and n.args and isinstance(n.args[0], ast.Tuple)]
+    bounds_attr = self_attr(tup[0].func.value.value) if len(tup) == 1 else None
+    okc = False
+    if len(tup) == 1 and len(tup[0].args[0].elts) == 2:
+        e0, e1 = tup[0].args[0].elts
+        unpack = [a for a in ast.walk(ini) if isinstance(a, ast.Assign) and isinstance(a.targets[0], ast.Tuple) and len(a.targets[0].elts) == 2
+                  and isinstance(a.value, ast.Call) and norm(a.value.func).endswith("derivative_bound")]
+        if len(unpack) == 1:
+            up, lo = (norm(x) for x in unpack[0].targets[0].elts)
+            okc = norm(e0) == up and isinstance(e1, ast.UnaryOp) and isinstance(e1.op, ast.USub) and norm(e1.operand) == lo
+    rep.ob("R18.4-bound-components", okc, Loc(CV, tup[0].lineno if tup else ini.lineno, "CellVetoEventHandler.initialize"), tup[0] if tup else "bounds tuple",
+           "component 0 is the upper bound, component 1 the negated lower bound (in the order the estimator returns them)")
+    comp_of_list: Dict[str, int] = {}
+    for c in ast.walk(ini):
+        if not (isinstance(c, ast.Call) and isinstance(c.func, ast.Attribute) and c.func.attr == "append" and isinstance(c.func.value, ast.Subscript)
+                and isinstance(c.func.value.value, ast.Name) and c.args and isinstance(c.args[0], ast.Call) and norm(c.args[0].func) == "WalkerItem"):
+            continue
+        lst, d = c.func.value.value.id, norm(c.func.value.slice)
+        ok = False
+        comp = None
+        wa = c.args[0].args
+        if len(wa) == 2:
+            rate = RI.res(wa[1], (d,))
+            if isinstance(rate, ast.Call) and norm(rate.func) == "max" and len(rate.args) == 2:
+                zero = [x for x in rate.args if isinstance(x, ast.Constant) and x.value == 0]
+                src_ = [x for x in rate.args if not (isinstance(x, ast.Constant))]
+                if len(zero) == 1 and len(src_) == 1:
+                    e = src_[0]
+                    if isinstance(e, ast.Subscript) and isinstance(e.slice, ast.Constant) and isinstance(e.value, ast.Subscript) \
+                            and isinstance(e.value.value, ast.Subscript) and self_attr(e.value.value.value) == bounds_attr:
+                        comp = e.slice.value
+                        ok = norm(e.value.slice) == d and comp in (0, 1)
+        if ok:
+            comp_of_list[lst] = comp
+        rep.ob("R18.4-walker-items", ok, Loc(CV, c.lineno, "CellVetoEventHandler.initialize"), c,
+               "the walker of a direction must get, per far cell, max(one bound component, 0) of that cell and the same direction")
+    comp_of_attr: Dict[str, int] = {}
+    for a in ast.walk(ini):
+        if isinstance(a, ast.Assign) and self_attr(a.targets[0]) and isinstance(a.value, ast.ListComp) and isinstance(a.value.elt, ast.Call) \
+                and norm(a.value.elt.func) == "Walker" and len(a.value.generators) == 1 and isinstance(a.value.generators[0].iter, ast.Name) \
+                and a.value.generators[0].iter.id in comp_of_list:
+            comp_of_attr[self_attr(a.targets[0])] = comp_of_list[a.value.generators[0].iter.id]
+    rep.ob("R18.4-walker-per-direction", sorted(comp_of_attr.values()) == [0, 1], Loc(CV, ini.lineno, "CellVetoEventHandler.initialize"),
+           f"walker tables per direction built from bound components {comp_of_attr}", "one walker per direction for the upper (component 0) and lower (component 1) bounds")
+    # send_event_time: sign branch
+    branch = [n for n in ast.walk(st) if isinstance(n, ast.If) and any(isinstance(a, ast.Assign) and isinstance(a.value, ast.Subscript)
+                                                                       and self_attr(a.value.value) in comp_of_attr for a in n.body + n.orelse)]
     okb = False
+    walker_var = index_var = charge_var = dir_txt = None
     if len(branch) == 1:
         b = branch[0]
+
         def facts(stmts):
-            w = [norm(a.value) for a in stmts if isinstance(a, ast.Assign) and "walker" in norm(a.value)]
-            i = [a.value.value for a in stmts if isinstance(a, ast.Assign) and isinstance(a.value, ast.Constant) and isinstance(a.value.value, int)]
-            return (w[0] if w else None, i[0] if i else None)
-        tw, ti = facts(b.body)
-        ew, ei = facts(b.orelse)
-        pos = norm(b.test).endswith("> 0.0") or norm(b.test).endswith("> 0")
-        upper_then = tw is not None and "upper" in tw
-        okb = pos and ((upper_then and ti == 0 and ew is not None and "lower" in ew and ei == 1))
-        flips = any(isinstance(a, ast.AugAssign) and isinstance(a.op, ast.Mult) and norm(a.value) in ("-1.0", "-1") for a in b.orelse)
-        okb = okb and flips
+            w = [(norm(a.targets[0]), self_attr(a.value.value), RT.text(a.value.slice)) for a in stmts if isinstance(a, ast.Assign)
+                 and isinstance(a.value, ast.Subscript) and self_attr(a.value.value) in comp_of_attr]
+            i = [(norm(a.targets[0]), a.value.value) for a in stmts if isinstance(a, ast.Assign) and isinstance(a.value, ast.Constant)
+                 and isinstance(a.value.value, int) and not isinstance(a.value.value, bool)]
+            return (w[0] if len(w) == 1 else None, i[0] if len(i) == 1 else None)
+        at = atoms(b.test)
+        sp = split_atom(at[0]) if len(at) == 1 else None
+        pos_branch = neg_branch = None
+        if sp is not None:
+            l, op, r = sp
+            try:
+                if float(l) == 0 and op == "<":              # 0 < c : body is the positive branch
+                    charge_var, pos_branch, neg_branch = r, b.body, b.orelse
+                elif float(r) == 0 and op in ("<=", "<"):    # c <= 0 : body is the non-positive branch
+                    charge_var, pos_branch, neg_branch = l, b.orelse, b.body
+            except ValueError:
+                try:
+                    if float(r) == 0 and op in ("<=", "<"):
+                        charge_var, pos_branch, neg_branch = l, b.orelse, b.body
+                except ValueError:
+                    pass
+        if pos_branch is not None:
+            (pw, pi), (nw, ni) = facts(pos_branch), facts(neg_branch)
+            if pw and pi and nw and ni and pw[0] == nw[0] and pi[0] == ni[0] and pw[2] == nw[2]:
+                walker_var, index_var, dir_txt = pw[0], pi[0], pw[2]
+                consistent = comp_of_attr[pw[1]] == pi[1] and comp_of_attr[nw[1]] == ni[1] and pi[1] == 0 and ni[1] == 1
+                flips = any((isinstance(a, ast.AugAssign) and isinstance(a.op, ast.Mult) and norm(a.target) == charge_var and norm(a.value) in ("-1.0", "-1"))
+                            or (isinstance(a, ast.Assign) and norm(a.targets[0]) == charge_var and norm(a.value) in (f"-{charge_var}", f"abs({charge_var})"))
+                            for a in neg_branch)
+                no_flip_pos = not any(isinstance(a, (ast.Assign, ast.AugAssign)) and norm(a.targets[0] if isinstance(a, ast.Assign) else a.target) == charge_var
+                                      for a in pos_branch)
+                okb = consistent and flips and no_flip_pos
     rep.ob("R18.4-walker-and-index-together", okb, locv, branch[0].test if branch else "charge-sign branch",
            "for a positive charge factor the upper-bound walker goes with bound component 0, otherwise the factor is negated and the "
            "lower-bound walker goes with component 1: walker and confirmation bound must be chosen in the same branch")
-    td = [a for a in ast.walk(st) if isinstance(a, ast.Assign) and "expovariate" in norm(a.value)]
+    keep = tuple(x for x in (walker_var, index_var, charge_var) if x)
+    td = [n for n in ast.walk(st) if isinstance(n, ast.BinOp) and isinstance(n.op, ast.Div) and isinstance(n.left, ast.Call)
+          and norm(n.left.func) == "random.expovariate"]
     okt = False
-    if len(td) == 1 and isinstance(td[0].value, ast.BinOp) and isinstance(td[0].value.op, ast.Div):
-        num, den = td[0].value.left, td[0].value.right
-        tr = [a for a in ast.walk(st) if isinstance(a, ast.Assign) and norm(a.targets[0]) in [n.id for n in ast.walk(den) if isinstance(n, ast.Name)]
-              and "total_rate" in norm(a.value)]
-        okt = norm(num) == "random.expovariate(setting.beta)" and isinstance(den, ast.BinOp) and isinstance(den.op, ast.Mult) \
-            and "speed" in norm(den) and len(tr) == 1 and norm(tr[0].value) in ("walker.total_rate * charge_factor", "charge_factor * walker.total_rate")
+    if len(td) == 1 and walker_var:
+        fs = RT.factors(td[0], keep)
+        speed = [f for f in fs if f.startswith("1/") and ".velocity[" in f]
+        okt = norm(td[0].left) == "random.expovariate(setting.beta)" and len(fs) == 4 and f"1/{walker_var}.total_rate" in fs \
+            and f"1/{charge_var}" in fs and len(speed) == 1 and "random.expovariate(setting.beta)" in fs
     rep.ob("R18.4-candidate-time", okt, locv, td[0] if td else "time displacement",
            "the candidate time must be Exp(beta) / (total rate of the chosen walker x charge factor x speed)")
     be = [a for a in ast.walk(st) if isinstance(a, ast.Assign) and self_attr(a.targets[0]) and "rate" in self_attr(a.targets[0])
           and isinstance(a.value, ast.BinOp)]
     okq = False
-    if len(be) == 1:
-        sc = [a for a in ast.walk(st) if isinstance(a, ast.Assign) and norm(a.value) == "walker.sample_cell()"]
+    if len(be) == 1 and walker_var:
+        sc = [a for a in ast.walk(st) if isinstance(a, ast.Assign) and isinstance(a.targets[0], ast.Name) and norm(a.value) == f"{walker_var}.sample_cell()"]
         if len(sc) == 1:
             cellv = norm(sc[0].targets[0])
-            okq = norm(be[0].value) == f"self._derivative_bounds[{cellv}][direction_of_motion][bounding_event_rate_index] * charge_factor"
+            fs = RT.factors(be[0].value, keep + (cellv,))
+            okq = sorted(fs) == sorted([charge_var, f"self.{bounds_attr}[{cellv}][{dir_txt}][{index_var}]"])
     rep.ob("R18.4-bound-at-sampled-cell", okq, locv, be[0] if be else "bounding event rate",
            "the confirmation bound must be the stored bound of the sampled cell, the direction of motion and the chosen component, "
            "times the charge factor")
-    # walkers built per direction from component 0 / 1 clipped at 0
-    for kind, comp in (("upper", 0), ("lower", 1)):
-        apps = [n for n in ast.walk(ini) if isinstance(n, ast.Call) and isinstance(n.func, ast.Attribute) and n.func.attr == "append"
-                and kind in norm(n.func.value) and n.args and norm(n.args[0].func if isinstance(n.args[0], ast.Call) else n.args[0]) == "WalkerItem"]
-        ok = len(apps) == 1 and norm(apps[0].args[0].args[1]) == f"max(self._derivative_bounds[cell_separation][direction][{comp}], 0.0)" \
-            and norm(apps[0].func.value).endswith("[direction]")
-        rep.ob("R18.4-walker-items", ok, Loc(CV, apps[0].lineno if apps else ini.lineno, "CellVetoEventHandler.initialize"),
-               apps[0] if apps else f"{kind} walker items",
-               f"the {kind}-bound walker of a direction must get, per far cell, max(bound component {comp}, 0) of that cell and direction")
-    mk = [a for a in ast.walk(ini) if isinstance(a, ast.Assign) and self_attr(a.targets[0]) and "walker" in self_attr(a.targets[0])
-          and isinstance(a.value, ast.ListComp)]
-    rep.ob("R18.4-walker-per-direction", len(mk) == 2 and all("Walker(" in norm(a.value) for a in mk),
-           Loc(CV, ini.lineno, "CellVetoEventHandler.initialize"), "one walker per direction for upper and lower bounds", "walkers not built per direction")
-    tup = [n for n in ast.walk(ini) if isinstance(n, ast.Call) and isinstance(n.func, ast.Attribute) and n.func.attr == "append"
-           and "_derivative_bounds" in norm(n.func.value) and n.args and isinstance(n.args[0], ast.Tuple)]
-    rep.ob("R18.4-bound-components", len(tup) == 1 and norm(tup[0].args[0]) == "(upper_bound, -lower_bound)",
-           Loc(CV, tup[0].lineno if tup else ini.lineno, "CellVetoEventHandler.initialize"), tup[0] if tup else "bounds tuple",
-           "component 0 is the upper bound, component 1 the negated lower bound")
     from ..handler_dims import check_handler_dimensions
     check_handler_dimensions(prog, src, rep, "R18.5-handler-dimensions", lambda h: prog.is_subclass(h, 'CellVetoEventHandler'))
     rep.expect_min("R18.2-mass-conserved", 1)
